@@ -5,8 +5,9 @@
 //! (poll_outbound on request, poll_inbound, poll — the way libp2p-swarm's `Connection` uses a
 //! `StreamMuxer`) and one task per substream that executes its operation script
 //! (write tagged bytes / flush / close / read n / read to EOF / drop). The task schedule is the
-//! explorer's as well. Every execution runs on a fresh thread with entropy and clock reset
-//! (`mc::isolated`): yamux draws randomness and reads `Instant`.
+//! explorer's as well. Every execution starts with the virtual clock and the entropy stream
+//! reset; the muxers turned out not to draw entropy on any decision path (guarded, see `body`),
+//! so executions run in place; `C24_ISOLATE=1` runs each on a fresh thread as a cross-check.
 //!
 //! Oracle (per execution, from the operation log only):
 //! * every byte read on a handle carries the tag of ONE peer handle (opposite side, opposite
@@ -36,8 +37,8 @@ use std::task::{Poll, Waker};
 
 pub const META: Meta = Meta {
     level: "model_checking",
-    rule: "units = muxer configuration (mplex Block max_buffer_len 1 split 2; mplex Block max_buffer_len 2 split 3; mplex ResetStream buffer 32 split 2; yamux default) x operation script (1-2 substreams per side quick, up to 3 thorough; open/write/flush/close/read/drop orders incl. writer-reset and reader-drop); per unit every execution with <= bound deviations (1-byte reads, 1-byte writes, injected Pending on read/write/flush of the shared connection, non-round-robin task choice). Non-trivial = executions with >= 1 deviation, distinct by (unit, choice sequence).",
-    explanation: "E1 stateless DFS with deviation bound over the real muxers joined by an in-memory pipe; each execution on a fresh thread with entropy/clock reset; oracle from the operation log: per handle the bytes read are a prefix of the paired peer handle's written bytes (tags), complete at EOF after a completed close, EOF only after close/drop, no foreign tag, no error on clean streams, no stuck execution.",
+    rule: "units = muxer configuration (mplex Block max_buffer_len 1 split 2; mplex Block max_buffer_len 2 split 3; mplex ResetStream buffer 32 split 2; yamux default) x operation script (1-2 substreams per side quick, up to 3 thorough; open/write/flush/close/read/drop orders incl. writer-reset and reader-drop); per unit every execution with <= bound deviations (bound 2 quick / 3 thorough for yamux, 3 / 4 for mplex; 1-byte reads, 1-byte writes, injected Pending on read/write/flush of the shared connection, non-round-robin task choice). Non-trivial = executions with >= 1 deviation, distinct by (unit, choice sequence).",
+    explanation: "E1 stateless DFS with deviation bound over the real muxers joined by an in-memory pipe; each execution with the virtual clock and the entropy stream reset (any entropy consumption by yamux is a machinery error; fresh-thread isolation available as cross-check); oracle from the operation log: per handle the bytes read are a prefix of the paired peer handle's written bytes (tags), complete at EOF after a completed close, EOF only after close/drop, no foreign tag, no error on clean streams, no stuck execution.",
     assumptions: &[
         "poll-granularity interleaving on one thread; one driver task per endpoint calls poll_inbound/poll_outbound/poll (as libp2p-swarm does), substreams live in their own tasks",
         "<= 16 bytes per stream and direction, <= 3 substreams per side",
@@ -594,14 +595,35 @@ fn isolated_small<T: Send + 'static>(seed: u64, f: impl FnOnce() -> T + Send + '
     }
 }
 
-/// body for the explorer: one execution on a fresh thread (entropy + clock reset)
+/// body for the explorer. Neither muxer's behaviour depends on entropy or on a randomly keyed
+/// hash map in these executions (measured: yamux draws 0 bytes, mplex only its log-only id), so an execution does not need
+/// a fresh thread (a thread spawn costs ~1-2 ms in this sandbox); the body runs in place with
+/// the virtual clock and entropy stream reset and turns ANY entropy consumption into a
+/// machinery error. `C24_ISOLATE=1` runs every execution on a fresh thread instead
+/// (cross-check; must give identical counts).
 fn body(mi: usize, si: usize, thorough: bool, seed: u64) -> impl FnMut(&mut Chooser) -> Result<(), String> {
+    let isolate = std::env::var_os("C24_ISOLATE").is_some();
+    let scs = scripts(thorough);
     move |ch: &mut Chooser| {
+        let mx = MUXERS[mi].1;
+        if !isolate {
+            mc::entropy::reset(seed);
+            mc::vclock::reset();
+            let before = mc::entropy::served();
+            let sc = &scs[si];
+            let r = choice::scoped(ch, || mc::catch(|| run_unit(mx, sc)).unwrap_or_else(|p| Err(format!("panic at {} :: {p}", mc::shim::last_panic_loc().unwrap_or_default()))));
+            // mplex draws one `rand::random()` per endpoint for its `ConnectionId`, which only
+            // appears in tracing output (io.rs:126); ThreadRng (re)seeding for it is the one
+            // tolerated entropy use. yamux must not draw any.
+            if mc::entropy::served() != before && matches!(mx, Mx::Yamux) {
+                return Err(format!("machinery: execution consumed {} bytes of entropy outside an isolated thread", mc::entropy::served() - before));
+            }
+            return r;
+        }
         let mut c = std::mem::take(ch);
         let r = isolated_small(seed, move || {
             let scs = scripts(thorough);
             let sc = &scs[si];
-            let mx = MUXERS[mi].1;
             let r = choice::scoped(&mut c, || mc::catch(|| run_unit(mx, sc)).unwrap_or_else(|p| Err(format!("panic at {} :: {p}", mc::shim::last_panic_loc().unwrap_or_default()))));
             (c, r)
         });
@@ -613,6 +635,75 @@ fn body(mi: usize, si: usize, thorough: bool, seed: u64) -> impl FnMut(&mut Choo
             Err(p) => Err(format!("machinery: execution thread died :: {p}")),
         }
     }
+}
+
+/// `mc::choice::explore` with the branches below the root striped over worker processes: the
+/// first deviation of an execution happens at some choice index i of the deviation-free root
+/// execution; worker w of n explores exactly the subtrees with i % n == w (the root itself is
+/// run by every worker and counted by worker 0). The union over the workers is the same set of
+/// executions as the unpartitioned exploration.
+fn explore_part<F>(bound: u32, cap: u64, part: Option<(usize, usize)>, mut body: F) -> (choice::ExploreStats, Option<(Vec<u32>, String)>)
+where
+    F: FnMut(&mut Chooser) -> Result<(), String>,
+{
+    let (w, n) = part.unwrap_or((0, 1));
+    let mut st = choice::ExploreStats { bound, ..Default::default() };
+    let selftest_k: u64 = std::env::var("VERIF_SELFTEST_K").ok().and_then(|v| v.parse().ok()).unwrap_or(32);
+    let mut digests: std::collections::HashSet<u64> = std::collections::HashSet::new();
+    let mut stack: Vec<(Vec<u32>, Vec<u32>)> = vec![(vec![], vec![])];
+    while let Some((prefix, ar)) = stack.pop() {
+        if cap != 0 && st.executions >= cap {
+            st.capped = true;
+            break;
+        }
+        let plen = prefix.len();
+        let is_root = plen == 0;
+        let mut ch = Chooser::with_expect(prefix.clone(), ar.clone());
+        let r = body(&mut ch);
+        if !is_root || w == 0 {
+            st.executions += 1;
+            st.choice_points += ch.trace.len() as u64;
+        }
+        if digests.len() < 1_000_000 {
+            digests.insert(ch.obs_digest);
+            st.distinct_obs = digests.len() as u64;
+        }
+        if st.selftested < selftest_k {
+            st.selftested += 1;
+            let mut ch2 = Chooser::with_expect(prefix, ar);
+            let r2 = body(&mut ch2);
+            if ch2.trace != ch.trace || ch2.obs_digest != ch.obs_digest || r2.is_err() != r.is_err() {
+                return (st, Some((ch.choices(), format!("NONDETERMINISM: re-running the same choice sequence gave a different trace/observation (len {} vs {}, digest {:x} vs {:x})", ch.trace.len(), ch2.trace.len(), ch.obs_digest, ch2.obs_digest))));
+            }
+        }
+        st.max_trace_len = st.max_trace_len.max(ch.trace.len());
+        if let Some(d) = &ch.diverged {
+            return (st, Some((ch.choices(), format!("NONDETERMINISM: {d}"))));
+        }
+        if let Err(e) = r {
+            return (st, Some((ch.choices(), e)));
+        }
+        let mut cost: u32 = ch.trace[..plen.min(ch.trace.len())].iter().map(|t| if t.0 != 0 { t.2 } else { 0 }).sum();
+        let mut new: Vec<(Vec<u32>, Vec<u32>)> = Vec::new();
+        for i in plen..ch.trace.len() {
+            let (c, nalt, k) = ch.trace[i];
+            if cost + k <= bound && (!is_root || i % n == w) {
+                for alt in 1..nalt {
+                    let mut p: Vec<u32> = ch.trace[..i].iter().map(|t| t.0).collect();
+                    p.push(alt);
+                    let mut a: Vec<u32> = ch.trace[..i].iter().map(|t| t.1).collect();
+                    a.push(nalt);
+                    new.push((p, a));
+                }
+            }
+            if c != 0 {
+                cost += k;
+            }
+        }
+        new.reverse();
+        stack.extend(new);
+    }
+    (st, None)
 }
 
 pub fn run(ctx: &Ctx) -> Outcome {
@@ -635,8 +726,8 @@ pub fn run(ctx: &Ctx) -> Outcome {
         return out;
     }
     let thorough = !ctx.quick();
-    let bound: u32 = std::env::var("C24_BOUND").ok().and_then(|v| v.parse().ok()).unwrap_or(ctx.tier.pick(1, 2));
-    let cap: u64 = std::env::var("C24_CAP").ok().and_then(|v| v.parse().ok()).unwrap_or(ctx.tier.pick(0, 400_000));
+    let bound: u32 = std::env::var("C24_BOUND").ok().and_then(|v| v.parse().ok()).unwrap_or(ctx.tier.pick(2, 3));
+    let cap: u64 = std::env::var("C24_CAP").ok().and_then(|v| v.parse().ok()).unwrap_or(0);
     let scs = scripts(thorough);
     let mut units = Vec::new();
     for si in 0..scs.len() {
@@ -648,21 +739,27 @@ pub fn run(ctx: &Ctx) -> Outcome {
     let mut out = mc::workers(ctx, 16, |ctx| {
         let mut out = Outcome::default();
         for (i, (mi, si)) in units.iter().enumerate() {
-            if !ctx.mine(i as u64) {
-                continue;
-            }
+            // every worker takes its stripe of every unit (see `explore_part`)
+            let _ = i;
             let (mname, sname) = (MUXERS[*mi].0, scs[*si].name);
-            let (st, viol) = choice::explore(bound, cap, body(*mi, *si, thorough, seed));
+            // mplex executions have few choice points (it only touches the connection at
+            // frame / flush granularity), so it gets one more deviation than yamux
+            let bound = if matches!(MUXERS[*mi].1, Mx::Mplex { .. }) { bound + 1 } else { bound };
+            let (st, viol) = explore_part(bound, cap, ctx.worker, body(*mi, *si, thorough, seed));
             out.add_explore(&st);
-            out.count("units", 1);
+            if ctx.worker.map(|w| w.0).unwrap_or(0) == 0 {
+                out.count("units", 1);
+            }
             out.count(&format!("executions_{}", if *mi == 3 { "yamux" } else { "mplex" }), st.executions);
             out.count("distinct_observations", st.distinct_obs);
             out.max(&format!("max_distinct_observations_{}", if *mi == 3 { "yamux" } else { "mplex" }), st.distinct_obs);
-            let salt = mc::report::hash_str(&format!("{mname}/{sname}"));
+            let salt = mc::report::hash_str(&format!("{mname}/{sname}/{:?}", ctx.worker));
             for k in 1..st.executions.min(100_000) {
                 out.nontrivial_h(salt ^ k.wrapping_mul(0x9e3779b97f4a7c15));
             }
-            out.sample(json!({"muxer": mname, "script": sname, "executions": st.executions, "distinct_observations": st.distinct_obs, "max_trace_len": st.max_trace_len, "bound": bound}));
+            if ctx.worker.map(|w| w.0).unwrap_or(0) == (i % 16) {
+                out.sample(json!({"muxer": mname, "script": sname, "executions": st.executions, "distinct_observations": st.distinct_obs, "max_trace_len": st.max_trace_len, "bound": bound, "note": "counts of this worker's stripe of the unit"}));
+            }
             if let Some((choices, m)) = viol {
                 if m.starts_with("NONDETERMINISM") || m.starts_with("machinery") {
                     out.machinery(format!("{m} unit={mname}/{sname}"));
@@ -674,7 +771,7 @@ pub fn run(ctx: &Ctx) -> Outcome {
         }
         out
     });
-    out.notes.push(format!("deviation bound {bound}; {} units = {} scripts x {} muxer configurations; exploration of a unit stops at its first violation", units.len(), scs.len(), MUXERS.len()));
+    out.notes.push(format!("deviation bound {bound} for yamux units and {} for mplex units; {} units = {} scripts x {} muxer configurations; exploration of a unit stops at its first violation", bound + 1, units.len(), scs.len(), MUXERS.len()));
     if out.get("executions_yamux") == 0 || out.get("executions_mplex") == 0 {
         out.machinery("vacuity: one of the muxers was never executed");
     }
